@@ -16,7 +16,18 @@ def group_part(work, v, thorough):
     tf = os.path.join(out, "sf.ndjson")
     res = storelib.validate(work, tf, "sf", module="SingleFlightTrace", cfg="SingleFlightTrace.cfg")
     storelib.report(v, work, "C13", tf, res)
-    return {"singleflight_states": states, "singleflight_transitions": trans, "singleflight_model_checking_runs": mcs,
+    # hook-free stress on one group (windows between atomic steps where no hook sits), judged by SfStress.tla
+    out2 = storelib.run_driver(work, "TestVerif_C13SfStress", "sfstress", env={"VERIF_N": 18 if thorough else 6}, timeout=900)
+    tf2 = os.path.join(out2, "sfstress.ndjson")
+    res2 = storelib.validate(work, tf2, "sfstress", module="SfStress", cfg="SfStress.cfg")
+    seen2 = set()
+    for (prop, tid, line, kind) in res2["viol"]:
+        if (tid, kind) not in seen2:
+            seen2.add((tid, kind))
+            v.report("C13: %s in stress run %s at line %s" % (kind, tid, line), tf2)
+    sm = json.load(open(os.path.join(out2, "sfstress.summary.json")))
+    return {"singleflight_stress_calls": sm["calls"], "singleflight_stress_calls_judged_by_tlc": res2["calls"],
+            "singleflight_states": states, "singleflight_transitions": trans, "singleflight_model_checking_runs": mcs,
             "singleflight_schedules_replayed": n, "singleflight_calls_validated": res["calls"],
             "singleflight_sample": vlib.read_ndjson_head(tf, 12), "_states": states, "_trans": trans, "_traces": res["traces"]}
 
